@@ -123,6 +123,7 @@ class DeckGen:
         self.palette = {}
         self.classes = {}      # (mat, class id) -> number
         self.features = set()
+        self.done = []         # (universe, depth) of finished universes
         self.big = self.new_surface('so', [500.0])
 
     # -- helpers ------------------------------------------------------------
@@ -194,7 +195,19 @@ class DeckGen:
 
     # -- universes ----------------------------------------------------------
     def universe(self, depth):
-        '''Create a universe (a partition of space), return its number.'''
+        '''A universe (a partition of space) for a fill at `depth`: a new one,
+        or sometimes a finished one of the same or a deeper level (universes
+        used by several containers).'''
+        rng = self.rng
+        fits = [u for u, d in self.done if d >= depth]
+        if fits and rng.random() < 0.3:
+            self.features.add('universe-reused')
+            return rng.choice(fits)
+        univ = self.new_universe(depth)
+        self.done.append((univ, depth))
+        return univ
+
+    def new_universe(self, depth):
         rng = self.rng
         univ = self.next_univ
         self.next_univ += 1
